@@ -77,6 +77,8 @@ class Tracer:
 
     def it(self, node):               # one more pass of a while
         node.value += 1
+        if node.value > 5000 or len(self.trace) > 50000:
+            raise RuntimeError("runaway loop in a generated script")
         return Scope(self, node)
 
     def enter(self, node):            # a pass of a for (the count is the range length, set by new)
